@@ -354,6 +354,7 @@ fn main() {
         "streamcomp" => scn_streamcomp(&o, &mut tr, "C02"),
         "flushes" => scn_flushes(&o, &mut tr, "C12"),
         "deflate_protocol" => scn_deflate_protocol(&o, &mut tr, "C14"),
+        "deflate_protocol_c12" => scn_deflate_protocol(&o, &mut tr, "C12"),
         "capi" => capi::scn_capi(&o, &mut tr, "C17"),
         "capi_c06" => capi::scn_capi(&o, &mut tr, "C06"),
         "bound" => capi::scn_bound(&o, &mut tr, "C15"),
